@@ -56,13 +56,17 @@ MkEv(a, ch, idx, d, c, res, out, ind, pin, s2, r2, w2, rinc2, n1, n2) ==
 \* compact form of an action for the emitted scripts: <<action, channel, index or seconds, command>>
 Act(a, ch, idx, d, c) == <<a, ch, idx + d, c>>
 
+\* the action history feeds the script emission; the liveness configuration replaces KeepHist by FALSE
+\* (CONSTANT KeepHist <- ...) so that the state space stays finite without a VIEW
+KeepHist == TRUE
+
 \* common tail of every action: record the event, observe, remember the action
 Finish(e, act) ==
   LET st == Step(o, e, C) IN
   /\ ev' = e
   /\ o' = st.o
   /\ viol' = st.v
-  /\ hist' = Append(hist, act)
+  /\ hist' = IF KeepHist THEN Append(hist, act) ELSE hist
 
 Init ==
   /\ s = SInit(C)
@@ -250,6 +254,21 @@ Next ==
   \/ \E c \in CmdNames : S_Cmd(c) \/ R_Cmd(c)
 
 Spec == Init /\ [][Next]_vars
+
+\* ------------------------------------------------------------ liveness (C02 / C03 on the model)
+\* Fairness of what the SYSTEM does: the two tasks run, timers are serviced, time passes, the link delivers
+\* what it has not lost (head of line), a dark direction loses everything.  Faults, commands, injections
+\* and blackouts are the environment's: unfair, and bounded by their budgets.
+Fair ==
+  /\ WF_vars(S_Send) /\ WF_vars(R_Send) /\ WF_vars(S_Timeout) /\ WF_vars(R_Timeout)
+  /\ WF_vars(c2r # <<>> /\ DeliverR(1)) /\ WF_vars(c2s # <<>> /\ DeliverS(1))
+  /\ WF_vars(\E ch \in black : Drop(ch, 1))
+  /\ WF_vars(\E d \in 1 .. (Bound(C) + 1) : Tick(d))
+LiveSpec == Init /\ [][Next]_vars /\ Fair
+\* every transaction ends - and stays ended (no endless respawning, no livelock of retransmissions)
+BothEnd == <>[](~s.alive /\ ~r.alive)
+\* acknowledged mode, fewer faults than the limit, no commands: both users see success (C02)
+Succeeds == <>(o.succ["S"] /\ o.succ["R"])
 
 \* ------------------------------------------------------------ properties
 \* every listed property, on every step of every behaviour (tags as in Props.tla)
